@@ -38,4 +38,9 @@ Section EdgeCmpProof.
 
   Lemma edge_eqb_u_spec (a b : edge E) : edge_eqb_u ecmp a b = true <-> ecmp (eval a) (eval b) = Eq.
   Proof. unfold edge_eqb_u. destruct (ecmp (eval a) (eval b)); split; congruence. Qed.
+
+  Lemma edge_reverse_spec (a : edge E) :
+    esrc (edge_reverse a) = edst a /\ edst (edge_reverse a) = esrc a /\ eval (edge_reverse a) = eval a /\
+    edge_reverse (edge_reverse a) = a.
+  Proof. destruct a as [[s t] e]. repeat split. Qed.
 End EdgeCmpProof.
